@@ -1,8 +1,169 @@
+/-
+Line protocol driver for the model (natively compiled; imports only Model files).
+One request per line, fields separated by TAB; one response line per request.
+Not part of the trusted proofs: this is glue (decoding, encoding), validated together
+with the model by the correspondence harness.
+-/
 import XmlDiffModel.Model.Lcs
+import XmlDiffModel.Model.Tree
+import XmlDiffModel.Model.Path
+import XmlDiffModel.Model.Action
+import XmlDiffModel.Model.Patch
+import XmlDiffModel.Model.Match
+import XmlDiffModel.Model.Script
+import Std.Data.HashMap
 open XmlDiffModel
 
-def showPairs (ps : List (Nat × Nat)) : String :=
-  " ".intercalate (ps.map fun (a, b) => s!"{a},{b}")
+/-! ### codec -/
+
+def hexVal (c : Char) : Option Nat :=
+  if '0' ≤ c ∧ c ≤ '9' then some (c.toNat - '0'.toNat)
+  else if 'a' ≤ c ∧ c ≤ 'f' then some (c.toNat - 'a'.toNat + 10)
+  else none
+
+def parseHex (s : String) : Option Nat :=
+  if s.isEmpty then none
+  else s.toList.foldl (fun acc c => match acc, hexVal c with
+    | some n, some v => some (n * 16 + v)
+    | _, _ => none) (some 0)
+
+/-- `n` = None; `s` followed by dot-separated hex code points = a string. -/
+def decStr (tok : String) : Option (Option Str) :=
+  if tok == "n" then some none
+  else if tok.startsWith "s" then
+    let body := (tok.drop 1).toString
+    if body.isEmpty then some (some [])
+    else (body.splitOn ".").mapM (fun h => (parseHex h).map Char.ofNat) |>.map some
+  else none
+
+def decStr! (tok : String) : Str := ((decStr tok).getD none).getD []
+
+def hexDigits (n : Nat) : String := String.ofList (Nat.toDigits 16 n)
+
+def encStr (s : Option Str) : String :=
+  match s with
+  | none => "n"
+  | some cs => "s" ++ ".".intercalate (cs.map fun c => hexDigits c.toNat)
+
+partial def parseTree (toks : Array String) (i : Nat) : Option (Tree × Nat) := do
+  guard (toks[i]? == some "(")
+  let id ← (toks[i+1]?).bind String.toNat?
+  let kind ← match toks[i+2]? with
+    | some "e" => some Kind.elem
+    | some "c" => some Kind.comment
+    | _ => none
+  let tag ← (toks[i+3]?).bind decStr
+  let text ← (toks[i+4]?).bind decStr
+  let tail ← (toks[i+5]?).bind decStr
+  let na ← (toks[i+6]?).bind String.toNat?
+  let mut attrs : List (Str × Str) := []
+  let mut j := i + 7
+  for _ in [0:na] do
+    let k ← (toks[j]?).bind decStr
+    let v ← (toks[j+1]?).bind decStr
+    attrs := attrs ++ [(k.getD [], v.getD [])]
+    j := j + 2
+  let rec kidsLoop (j : Nat) (acc : List Tree) : Option (List Tree × Nat) :=
+    if toks[j]? == some ")" then some (acc.reverse, j + 1)
+    else match parseTree toks j with
+      | some (t, j') => kidsLoop j' (t :: acc)
+      | none => none
+  let (kids, j') ← kidsLoop j []
+  pure (.node id { kind := kind, tag := tag.getD [], attrs := attrs, text := text, tail := tail } kids, j')
+
+def decTree (s : String) : Option Tree :=
+  let toks := (s.splitOn " ").filter (· ≠ "") |>.toArray
+  match parseTree toks 0 with
+  | some (t, j) => if j == toks.size then some t else none
+  | none => none
+
+partial def encTree : Tree → String
+  | .node i p ks =>
+    let k := match p.kind with | .elem => "e" | .comment => "c"
+    let attrs := p.attrs.map fun (a, b) => encStr (some a) ++ " " ++ encStr (some b)
+    let parts := ["(", toString i, k, encStr (some p.tag), encStr p.text, encStr p.tail,
+      toString p.attrs.length] ++ attrs ++ ks.map encTree ++ [")"]
+    " ".intercalate parts
+
+def encAction : Action → String
+  | .deleteNode n => s!"del,{encStr n}"
+  | .insertNode t g p => s!"ins,{encStr t},{encStr g},{p}"
+  | .renameNode n g => s!"ren,{encStr n},{encStr g}"
+  | .moveNode n t p => s!"mov,{encStr n},{encStr t},{p}"
+  | .updateTextIn n t => s!"txt,{encStr n},{encStr t}"
+  | .updateTextAfter n t => s!"tail,{encStr n},{encStr t}"
+  | .updateAttrib n k v => s!"upa,{encStr n},{encStr k},{encStr v}"
+  | .deleteAttrib n k => s!"dela,{encStr n},{encStr k}"
+  | .insertAttrib n k v => s!"insa,{encStr n},{encStr k},{encStr v}"
+  | .renameAttrib n a b => s!"rena,{encStr n},{encStr a},{encStr b}"
+  | .insertComment t p x => s!"insc,{encStr t},{p},{encStr x}"
+  | .insertNamespace p u => s!"insns,{encStr p},{encStr u}"
+  | .deleteNamespace p => s!"delns,{encStr p}"
+
+def decAction (s : String) : Option Action :=
+  match s.splitOn "," with
+  | ["del", n] => some (.deleteNode (decStr! n))
+  | ["ins", t, g, p] => p.toNat?.map (.insertNode (decStr! t) (decStr! g))
+  | ["ren", n, g] => some (.renameNode (decStr! n) (decStr! g))
+  | ["mov", n, t, p] => p.toNat?.map (.moveNode (decStr! n) (decStr! t))
+  | ["txt", n, t] => (decStr t).map (.updateTextIn (decStr! n))
+  | ["tail", n, t] => (decStr t).map (.updateTextAfter (decStr! n))
+  | ["upa", n, k, v] => some (.updateAttrib (decStr! n) (decStr! k) (decStr! v))
+  | ["dela", n, k] => some (.deleteAttrib (decStr! n) (decStr! k))
+  | ["insa", n, k, v] => some (.insertAttrib (decStr! n) (decStr! k) (decStr! v))
+  | ["rena", n, a, b] => some (.renameAttrib (decStr! n) (decStr! a) (decStr! b))
+  | ["insc", t, p, x] => do
+    let pos ← p.toNat?
+    let txt ← decStr x
+    pure (.insertComment (decStr! t) pos txt)
+  | ["insns", p, u] => some (.insertNamespace (decStr! p) (decStr! u))
+  | ["delns", p] => some (.deleteNamespace (decStr! p))
+  | _ => none
+
+def decScript (s : String) : Option (List Action) :=
+  ((s.splitOn " ").filter (· ≠ "")).mapM decAction
+
+def encScript (as : List Action) : String := " ".intercalate (as.map encAction)
+
+def showErr : Err → String
+  | .notFound => "notFound" | .ambiguous => "ambiguous" | .assertFail => "assertFail"
+  | .keyError => "keyError" | .badIndex => "badIndex" | .intoSelf => "intoSelf"
+  | .notLeaf => "notLeaf" | .rootOp => "rootOp" | .noIndex => "noIndex"
+
+/-- cfg: `F;fast;best;ua1|ua2;ign1|ign2` with ua = `p,<attr>` or `t,<tag>,<attr>`. -/
+def decCfg (s : String) : Option Cfg :=
+  match s.splitOn ";" with
+  | [f, fast, best, uas, ign] => do
+    let F ← f.toNat?
+    let ua ← ((uas.splitOn "|").filter (· ≠ "")).mapM fun u =>
+      match u.splitOn "," with
+      | ["p", a] => some (UAttr.plain (decStr! a))
+      | ["t", t, a] => some (UAttr.tagged (decStr! t) (decStr! a))
+      | _ => none
+    let ig := ((ign.splitOn "|").filter (· ≠ "")).map decStr!
+    pure { F := F, uniqueattrs := ua, fastMatch := fast == "1", bestMatch := best == "1", ignored := ig }
+  | _ => none
+
+/-- sim table: space separated `l:r:c:bits`; a missing entry answers the impossible score
+`2^64` so that a miss shows up as a disagreement. -/
+def decSim (s : String) : Sim :=
+  let entries := ((s.splitOn " ").filter (· ≠ "")).filterMap fun e =>
+    match (e.splitOn ":").map String.toNat? with
+    | [some l, some r, some c, some b] => some ((l, r, c), b)
+    | _ => none
+  let m : Std.HashMap (Nat × Nat × Nat) Nat := Std.HashMap.ofList entries
+  fun l r c => m.getD (l, r, c) (2 ^ 64)
+
+def decMatches (s : String) : List (Nat × Nat) :=
+  ((s.splitOn " ").filter (· ≠ "")).filterMap fun e =>
+    match (e.splitOn ":").map String.toNat? with
+    | [some l, some r] => some (l, r)
+    | _ => none
+
+def showPairs (ps : List (Nat × Nat)) (sep : String) : String :=
+  " ".intercalate (ps.map fun (a, b) => s!"{a}{sep}{b}")
+
+/-! ### commands -/
 
 def doLcs (args : List String) : String :=
   match args with
@@ -12,16 +173,128 @@ def doLcs (args : List String) : String :=
       let arr := bits.toList.toArray
       let eq : Nat → Nat → Bool := fun i j => arr.getD (i * m + j) '0' == '1'
       match Lcs.lcs eq n m with
-      | .ok ps => "ok " ++ showPairs ps
+      | .ok ps => "ok " ++ showPairs ps ","
       | .fellOff => "fellOff"
       | .keyError => "keyError"
       | .negIndex => "negIndex"
     | _, _ => "bad-op"
   | _ => "bad-op"
 
+def qnPlain : QName := QName.plain
+
+def doGetpath (args : List String) : String :=
+  match args with
+  | [ts] => match decTree ts with
+    | some t =>
+      let ps := (Tree.ids t).map fun i => match getpath qnPlain t i with
+        | some p => encStr (some (printPath p))
+        | none => "none"
+      "ok " ++ " ".intercalate ps
+    | none => "bad-op"
+  | _ => "bad-op"
+
+def doResolve (args : List String) : String :=
+  match args with
+  | [ts, ps] => match decTree ts, decStr ps with
+    | some t, some (some p) =>
+      match parsePath p with
+      | some path => "ok " ++ " ".intercalate ((resolve qnPlain t path).map fun x => toString x.id)
+      | none => "badpath"
+    | _, _ => "bad-op"
+  | _ => "bad-op"
+
+def doPatch (args : List String) : String :=
+  match args with
+  | [mode, fresh, ts, ss] =>
+    match fresh.toNat?, decTree ts, decScript ss with
+    | some f, some t, some sc =>
+      let r := if mode == "strict" then runStrict qnPlain { tree := t, next := f } sc
+               else runShipped qnPlain { tree := t, next := f } sc
+      match r with
+      | .ok s => "ok " ++ encTree s.tree
+      | .error (k, e) => s!"err {k} {showErr e}"
+    | _, _, _ => "bad-op"
+  | _ => "bad-op"
+
+/-- Strict replay with per-action flags: `1` the id-tree changed, `0` it did not,
+`X` a node created by the script is deleted. -/
+def replayFlags (fresh : Nat) : PState → List Action → Nat → String → Except (Nat × Err) (String × PState)
+  | s, [], _, acc => .ok (acc, s)
+  | s, a :: rest, k, acc =>
+    match applyStrict qnPlain s a with
+    | .error e => .error (k, e)
+    | .ok s' =>
+      let created : Bool := match a with
+        | .deleteNode n => match uniqueHit qnPlain s.tree n with
+          | .ok x => decide (x.id ≥ fresh)
+          | _ => false
+        | _ => false
+      let flag := if created then "X" else if Tree.beq s.tree s'.tree then "0"
+        else if Tree.beqVal s.tree s'.tree then "v" else "1"
+      replayFlags fresh s' rest (k + 1) (acc ++ flag)
+
+def doReplay (args : List String) : String :=
+  match args with
+  | [fresh, ts, ss] =>
+    match fresh.toNat?, decTree ts, decScript ss with
+    | some f, some t, some sc =>
+      match replayFlags f { tree := t, next := f } sc 0 "" with
+      | .ok (flags, s) => "ok " ++ flags ++ " | " ++ encTree s.tree
+      | .error (k, e) => s!"err {k} {showErr e}"
+    | _, _, _ => "bad-op"
+  | _ => "bad-op"
+
+def doMatch (args : List String) : String :=
+  match args with
+  | [cs, ls, rs, sims] =>
+    match decCfg cs, decTree ls, decTree rs with
+    | some cfg, some L, some R => "ok " ++ showPairs (matchNodes cfg (decSim sims) L R) ":"
+    | _, _, _ => "bad-op"
+  | _ => "bad-op"
+
+def doScript (args : List String) : String :=
+  match args with
+  | [cs, ls, rs, ms, fresh] =>
+    match decCfg cs, decTree ls, decTree rs, fresh.toNat? with
+    | some cfg, some L, some R, some f =>
+      match scriptGen qnPlain cfg L R (decMatches ms) f with
+      | .ok (sc, t) => "ok " ++ encScript sc ++ " | " ++ encTree t
+      | .error e => "error " ++ e
+    | _, _, _, _ => "bad-op"
+  | _ => "bad-op"
+
+def doDiff (args : List String) : String :=
+  match args with
+  | [cs, ls, rs, sims, fresh] =>
+    match decCfg cs, decTree ls, decTree rs, fresh.toNat? with
+    | some cfg, some L, some R, some f =>
+      let M := matchNodes cfg (decSim sims) L R
+      match scriptGen qnPlain cfg L R M f with
+      | .ok (sc, t) => "ok " ++ showPairs M ":" ++ " | " ++ encScript sc ++ " | " ++ encTree t
+      | .error e => "ok " ++ showPairs M ":" ++ " | error " ++ e
+    | _, _, _, _ => "bad-op"
+  | _ => "bad-op"
+
+def doOrders (args : List String) : String :=
+  match args with
+  | [ts] => match decTree ts with
+    | some t =>
+      let f := fun (xs : List Nat) => ",".intercalate (xs.map toString)
+      s!"ok {f (Tree.postOrder t)} {f (Tree.revPostOrder t)} {f ((Tree.bfs t).map Tree.id)}"
+    | none => "bad-op"
+  | _ => "bad-op"
+
 def handle (line : String) : String :=
   match line.splitOn "\t" with
   | "lcs" :: args => doLcs args
+  | "getpath" :: args => doGetpath args
+  | "resolve" :: args => doResolve args
+  | "patch" :: args => doPatch args
+  | "replay" :: args => doReplay args
+  | "match" :: args => doMatch args
+  | "script" :: args => doScript args
+  | "diff" :: args => doDiff args
+  | "orders" :: args => doOrders args
   | _ => "bad-op"
 
 partial def loop (h : IO.FS.Stream) (out : IO.FS.Stream) : IO Unit := do
